@@ -122,6 +122,9 @@ type opaquePanic struct {
 	Why string
 }
 
+// a panic whose payload is an error of a type registered in the server's error table: it is still a panic
+func (h *StdHandler) PanicCoded() { h.l.add("PanicCoded"); panic(&CodedErr{N: 9}) }
+
 func (h *StdHandler) PanicOpaque() { h.l.add("PanicOpaque"); panic(opaquePanic{nil, "reindex"}) }
 func (h *StdHandler) Ctx(ctx context.Context, a int) int {
 	h.l.add("Ctx", a)
